@@ -7,7 +7,8 @@
 (* satisfy the clauses of UMN!Judge against RefListing(dir) - the reference reading of the  *)
 (* manual IS the property (DESIGN.md Appendix E.1); the verdict is the first failing clause: *)
 (*   Answered, HidesOnXorDash, PlusMeansThisServer, AddsWhenNotDotSlash, ExtStripName,      *)
-(*   OverridesOnlySetFields, Order, SidecarBecomesAbstract.                                  *)
+(*   OverridesOnlySetFields, Order, SidecarBecomesAbstract, StaysListed, PlusIsFetchable     *)
+(*   (e.fetch: what requesting each listed selector from this server returned).            *)
 (* Design level (DRIFT): the menu is exactly ImplListing(dir), handlers/UMN.py as modelled  *)
 (* (also for directories outside the scope of the property).                                *)
 EXTENDS UMN, TraceBase
@@ -28,7 +29,10 @@ Consume ==
     /\ LET e == Ev[l] IN
        IF e.ev # "listing" \/ l # 1
        THEN verdict' = "unmatched"
-       ELSE /\ verdict' = (IF InScope(TheDir) THEN Judge(Observed(e), RefListing(TheDir), RefHidden(TheDir)) ELSE "ok")
+       ELSE /\ verdict' = (IF ~InScope(TheDir) THEN "ok"
+                            ELSE LET j == Judge(Observed(e), RefListing(TheDir), RefHidden(TheDir)) IN
+                                 IF j # "ok" THEN j
+                                 ELSE IF PlusIsFetchable(e.fetch, RefListing(TheDir), TheDir) THEN "ok" ELSE "PlusIsFetchable")
             /\ (IF Observed(e) = ImplListing(TheDir) THEN TRUE
                 ELSE RecordDrift(tid, l, "menu differs from handlers/UMN.py as modelled"))
 
